@@ -172,6 +172,9 @@ def run_case(case):
     if defects and not viols and not any(case.get("relwd", [])) and int(digest_of(case), 16) % 3 == 0:
         viols += cli_side_effects(desc, defects)
         labels.add("cli-side-effects")
+    if not defects and not viols and not any(case.get("relwd", [])) and int(digest_of(case), 16) % 2 == 0:
+        viols += cli_valid(desc)
+        labels.add("cli-valid")
     nt = len(desc["targets"]) >= 3 and (len(defects) == 1 or (not defects and R.depth() >= 3))
     return CaseResult(viols, nt, sorted(labels))
 
@@ -180,6 +183,23 @@ def digest_of(case):
     from vlib.runner import digest
 
     return digest(case)
+
+
+def cli_valid(desc):
+    """A well-formed workflow is accepted by the commands too, on a real tree (the oldest files carry the epoch)."""
+    from vlib import project
+
+    viols = []
+    with project.Project(desc, backend="slurm") as proj:
+        proj.base_mtime = -10  # tick 1 -> mtime 0.0
+        proj.set_files({p: t for p, t in desc["files"].items()})
+        for args in (["status"], ["info"], ["run", "--dry-run"]):
+            r = proj.gwf(args)
+            if r.code != 0 or r.crashed:
+                viols.append(Violation({"kind": "valid-workflow-rejected-by-command", "cmd": args[0]},
+                                       f"`gwf {' '.join(args)}` on a well-formed workflow (ticks {desc['files']}; tick 1 is mtime 0): {r.brief()}"))
+                break
+    return viols
 
 
 MSG_KIND = (("provided by targets", "multiple-providers"), ("depends on itself", "cycle"),
